@@ -6,6 +6,7 @@ import os
 from vf import core
 from vf.core import CorrResult, Failure
 from . import kalman_common as kc
+from . import kalman_sessions as ks
 
 ID = "C03"
 PROPS = "props/C03.v"
@@ -71,7 +72,7 @@ def falsify(ctx, hints):
     seen = set()
 
     def run(case):
-        for f in kc.falsify_c03_case(case):
+        for f in (ks.falsify_session_c03(case) if "ops" in case else kc.falsify_c03_case(case)):
             if f.key not in seen:
                 seen.add(f.key)
                 fails.append(f)
@@ -94,13 +95,28 @@ def falsify(ctx, hints):
             ctx.log("falsifier raised on a case:", f"{type(e).__name__}: {e}"[:200])
         if len(fails) > 10:
             break
+    # sessions: call sequences (alter_num_variants / assign / solve / kalman_filter in both modes / simulate) on one
+    # model object whose variants differ in transition AND measurement parameters
+    ns = int(os.environ.get("VERIF_KF_SESSIONS", ctx.scale(60, 1200)))
+    info["sessions"] = 0
+    srng = ks.session_rng(ctx, "falsifier")      # own stream (derived from the seed): the older cases keep theirs
+    for _ in range(ns):
+        case = ks.gen_session(srng, max_periods=ctx.scale(8, 16))
+        info["sessions"] += 1
+        try:
+            run(case)
+        except Exception as e:  # noqa
+            info["harness_errors"] = info.get("harness_errors", 0) + 1
+            ctx.log("falsifier raised on a session:", f"{type(e).__name__}: {e}"[:200])
+        if len(fails) > 10:
+            break
     return fails, info
 
 
 def replay(ctx, failure: dict):
     case = failure.get("input")
     if isinstance(case, dict) and "model" in case:
-        for f in kc.falsify_c03_case(case):
+        for f in (ks.falsify_session_c03(case) if "ops" in case else kc.falsify_c03_case(case)):
             if f.key == failure["key"]:
                 return f
     return None
